@@ -43,7 +43,18 @@ func (vm *VM) runFunc(fn *Function, vars []reflect.Value) error {
 			}
 			return err
 		}
-		p.next = vm.panic
+		if p.next == nil {
+			p.next = vm.panic
+		} else {
+			// p is a panic not recovered by a function called through its
+			// Go value and it follows other panics of that call: they
+			// precede the panics of this virtual machine.
+			last := p
+			for last.next != nil {
+				last = last.next
+			}
+			last.next = vm.panic
+		}
 		vm.panic = p
 		if len(vm.calls) == 0 {
 			break
